@@ -615,6 +615,27 @@ func (n *Node) Mine(blocks []*Block, announce bool) {
 	n.mu.Unlock()
 }
 
+// Reorg replaces the last drop blocks of the node's chain by blocks (a competing branch the node now prefers) and
+// announces the new tip like Mine does.
+func (n *Node) Reorg(drop int, blocks []*Block, announce bool) {
+	n.mu.Lock()
+	if drop > len(n.chain) {
+		drop = len(n.chain)
+	}
+	for _, b := range n.chain[len(n.chain)-drop:] {
+		delete(n.index, b.Hash)
+	}
+	n.chain = n.chain[:len(n.chain)-drop]
+	// what a connection is known to have cannot exceed the common part any more
+	for _, c := range n.conns {
+		if c.known > int32(len(n.chain)) {
+			c.known = int32(len(n.chain))
+		}
+	}
+	n.mu.Unlock()
+	n.Mine(blocks, announce)
+}
+
 // Ready reports whether at least one connection has completed the handshake and is still open.
 func (n *Node) Ready() bool {
 	n.mu.Lock()
